@@ -126,10 +126,4 @@ def okEntry (e : EntryFact) : Bool :=
   let c := match c with | .abiInit :: r => r | r => r
   c == [.runtimeInit, .mainInit, .mainMain]
 
-/-- the model's trace of the entry calls (`main.init` abstracted) agrees with `runEntry`'s order:
-    used by the check to print what was verified -/
-def entryOf (e : EntryFact) (rt main : Nat) : Entry :=
-  { pyInit := e.calls.contains .pyInit, rt := if e.calls.contains .rtInit then some rt else none,
-    abiInit := e.calls.contains .abiInit, main := main }
-
 end LlgoVerif.Init
